@@ -69,6 +69,14 @@ func main() {
 			fmt.Fprintln(os.Stderr, err)
 			os.Exit(2)
 		}
+		if os.Getenv("GOVC_COVERAGE") != "" {
+			probs, cov := coverageC10(P)
+			for _, p := range probs {
+				fmt.Println("PROBLEM:", p)
+			}
+			fmt.Println("covered by inlining:", cov)
+			break
+		}
 		for _, n := range P.Contracts.Order {
 			fmt.Println(n)
 		}
